@@ -292,6 +292,8 @@ class TypedNode(Node):
             if deep and (data_id is not None or node_id is not None):
                 raise ValueError("Cannot set ID for deep copies.")
             source_node = child
+            if deep and (self is source_node or self.is_descendant_of(source_node)):
+                raise ValueError(f"Cannot copy a branch below itself: {source_node}")
             if source_node._tree is self._tree:
                 if source_node._parent is self:
                     raise UniqueConstraintError(
